@@ -58,7 +58,6 @@ func earlyAcceptExits(fn *ssa.Function) []*ssa.Return {
 	return out
 }
 
-
 // iterMustPass: in the loop enclosing the calls matched by pred, every
 // iteration that completes (reaches the loop header again) or returns success
 // has passed one of those calls with its verdict tested. One obligation per
@@ -304,7 +303,10 @@ func runC05(c *Ctx) {
 			okBytes := false
 			if bc, ok := ssau.Unwrap(args[0]).(*ssa.Call); ok && methodCallNamed(bc, "Bytes") && len(bc.Call.Args) > 0 {
 				buf := bc.Call.Args[0]
-				for _, su := range ssau.CallsIn(cts, func(cm *ssa.CallCommon) bool { o := ssau.CalleeObj(cm); return o != nil && o.Name() == "SerializeUnsigned" }) {
+				for _, su := range ssau.CallsIn(cts, func(cm *ssa.CallCommon) bool {
+					o := ssau.CalleeObj(cm)
+					return o != nil && o.Name() == "SerializeUnsigned"
+				}) {
 					for _, a := range su.Common().Args {
 						if ssau.Unwrap(a) == buf || ssau.DependsOn(a, func(x ssa.Value) bool { return x == buf }) {
 							okBytes = true
@@ -490,7 +492,9 @@ func runC05(c *Ctx) {
 		c.G1s("G-multisig", fr[2]+"|delegates to VerifyMultisigSignatures", f, "VerifyMultisigSignatures", callPred(R{"crypto", "", "VerifyMultisigSignatures"}), G1Opt{})
 		for _, call := range ssau.CallsIn(f, callPred(R{"crypto", "", "VerifyMultisigSignatures"})) {
 			a := call.Common().Args
-			c.R.Check("G-multisig", fr[2]+"|args", ssau.DependsOn(a[3], func(x ssa.Value) bool { return ssau.IsFieldOf(x, "Program", "Parameter") || ssau.IsFieldOf(x, "", "Parameter") }) && paramNamed(a[4], "data"),
+			c.R.Check("G-multisig", fr[2]+"|args", ssau.DependsOn(a[3], func(x ssa.Value) bool {
+				return ssau.IsFieldOf(x, "Program", "Parameter") || ssau.IsFieldOf(x, "", "Parameter")
+			}) && paramNamed(a[4], "data"),
 				c.posOf(call), "signatures = program.Parameter, data = data")
 		}
 	}
